@@ -34,7 +34,7 @@ func readTlvStream(
 		for {
 			rdr := enc.NewBufferReader(recvBuf[tlvOff:recvOff])
 
-			typ, err := enc.ReadTLNum(rdr)
+			_, err := enc.ReadTLNum(rdr)
 			if err != nil {
 				// Probably incomplete packet
 				break
@@ -52,7 +52,9 @@ func readTlvStream(
 				return errors.New("received TLV block larger than the maximum packet size")
 			}
 
-			tlvSize := typ.EncodingLength() + len.EncodingLength() + int(len)
+			// The header is as long as the bytes just read: type and length need not be
+			// in their shortest form, and the block must be delivered as it was sent
+			tlvSize := rdr.Pos() + int(len)
 
 			// With its type and length the block must still fit a packet: otherwise
 			// a full buffer could hold it only partially with no room left to read on
